@@ -170,15 +170,25 @@ def driver(lines, **kw):
 # ------------------------------------------------------------------------------------------
 # audit of the property theorems
 
+def property_modules(pid):
+    """Qco/Properties/Cxx.lean plus continuation files Cxx<letter>.lean (same namespace Qco.Cxx)"""
+    d = os.path.join(LEAN, "Qco", "Properties")
+    out = []
+    for f in sorted(os.listdir(d)) if os.path.isdir(d) else []:
+        if re.fullmatch(re.escape(pid) + r"[a-z]?\.lean", f):
+            out.append(f[:-5])
+    return out
+
 def property_theorems(pid):
-    path = os.path.join(LEAN, "Qco", "Properties", pid + ".lean")
-    if not os.path.exists(path):
-        return []
-    src = open(path).read()
-    # strip block comments
-    src_nc = re.sub(r"/-.*?-/", "", src, flags=re.S)
-    ns = "Qco." + pid
-    return [ns + "." + m.group(1) for m in re.finditer(r"^theorem\s+([A-Za-z0-9_'.]+)", src_nc, re.M)]
+    thms = []
+    for mod in property_modules(pid):
+        src = open(os.path.join(LEAN, "Qco", "Properties", mod + ".lean")).read()
+        src_nc = re.sub(r"/-.*?-/", "", src, flags=re.S)
+        # namespace: `namespace Qco` then `namespace Cxx` (continuation files use the property's namespace)
+        m = re.findall(r"^namespace\s+([A-Za-z0-9_.]+)", src_nc, re.M)
+        ns = ".".join(m[:2]) if len(m) >= 2 else "Qco." + pid
+        thms += [ns + "." + t.group(1) for t in re.finditer(r"^theorem\s+([A-Za-z0-9_'.]+)", src_nc, re.M)]
+    return thms
 
 FORBIDDEN = re.compile(r"\bsorry\b|\badmit\b|^\s*axiom\s|native_decide|implemented_by|\bunsafe\s|maxHeartbeats\s+0|bv_decide", re.M)
 
@@ -205,7 +215,8 @@ def audit(pid):
     os.makedirs(os.path.join(LEAN, "Audit"), exist_ok=True)
     apath = os.path.join(LEAN, "Audit", pid + ".lean")
     with open(apath, "w") as f:
-        f.write("import Qco.Properties.%s\n" % pid)
+        for mod in property_modules(pid):
+            f.write("import Qco.Properties.%s\n" % mod)
         for t in thms:
             f.write("#print axioms %s\n" % t)
     rc, out = sh(["lake", "env", "lean", os.path.join("Audit", pid + ".lean")], cwd=LEAN, timeout=1200)
